@@ -90,25 +90,30 @@ CHECKS = {
    technique='Coq proofs about the writer model + tree-equality correspondence + independent reader',
    design='DESIGN.md §3 C06'),
  'C01': dict(
-   text='Machine-checked proof (Coq), PARTIAL: for every code-point list written as a string or URI by the model of the ZINC dumper, the model of the reader\'s WHOLE per-version scalar alternation '
-        '(pyparsing Or = longest match over 13 / 18 alternatives) returns that string / URI and exactly the text that followed it; likewise null, marker, Remove, booleans, NA (the longest match winning over N) and references without display name whenever a delimiter follows; text is always writable; non-finite numbers; document framing. '
-        'All other kinds, rows, metadata, nested values, multi-grid documents and both versions are decided by the tie (writer model = hszinc.dump text, reader model = hszinc.parse value, on generated grids) '
+   text='Machine-checked proof (Coq): WHOLE GRIDS - for every version-3.0 grid without metadata, with any non-empty list of distinct column names, any number of rows and every cell a string, URI, finite number / quantity of the written shape, '
+        'valid date, time, null, marker, Remove, NA, boolean, plain reference, or a list of such values nested to any depth, the text the model of the ZINC dumper writes is read back by the model of the reader\'s grid rule and of parse_grid '
+        '(version sniffing included) as exactly that grid (C01_grid_roundtrip, C01_grid_roundtrip_top; induction over rows, cells and nesting). Per kind, through the WHOLE per-version scalar alternation (pyparsing Or = longest match over 13 / 18 alternatives): '
+        'every code-point list as string / URI, every number (the date, time, date-time and extended-string rules that also start with digits never win), every date and time (the number rule reading the leading digits loses to the longer match), the letter scalars, NA over N, plain references. '
+        'Metadata, dicts, nested grids, date-times, coordinates, Bin, XStr, multi-grid documents and version 2.0 grids are decided by the tie (writer model = hszinc.dump text, reader model = hszinc.parse value, on generated grids) '
         'and by the round-trip search on the implementation with a kind-strict comparator.',
-   note='PARTIAL: no induction over whole grids is proved. Numbers are CPython text tokens (str(float) / float() are oracles), date-times are compared by instant, offset and zone name through pytz as oracle. '
+   note='PARTIAL: the whole-grid theorem covers metadata-free 3.0 grids over the kinds listed; the other kinds and grid / column metadata are proved per rule or covered by tie + search only. Number texts are CPython tokens (str(float) / float() are oracles), date-times are compared by instant, offset and zone name through pytz as oracle. '
         'pyparsing itself is modelled by typed combinators (Or = longest match, first on ties; parse actions; no implicit whitespace skipping as hszinc configures it). Print Assumptions: closed under the global context.',
    technique='Coq proof about combinator model of the pyparsing grammar + extracted-model correspondence (dump text, parse value) + round-trip search',
    design='DESIGN.md §3 C01'),
  'C03': dict(
-   text='Machine-checked proof (Coq), PARTIAL: final newline optional for every document, empty input gives no grid, LF and CRLF line ends, z/Z, the string / URI literal with every legal escape followed by anything; '
-        'further spellings as evaluated examples. Decided otherwise by the reader model vs hszinc.parse on documents of an independent grammar-directed ZINC writer (value x independently chosen spelling: blanks around commas, '
+   text='Machine-checked proof (Coq): WHOLE DOCUMENTS - a 3.0 document of version line, column line (distinct names) and any number of rows of comma-separated cells is read by the model of the grid rule as exactly the grid it denotes, '
+        'whatever spelling each cell uses, provided the scalar rule reads the cell\'s value from its text before a comma / line end / bracket (C03_whole_document); that proviso is proved for every string and URI with every legal escape, every number spelling '
+        '(sign, digits, fraction, exponent e / e+ / e-, unit), every date and time, the letter scalars, plain references and lists of such elements to any depth. Also: final newline optional for every document, empty input gives no grid, LF and CRLF line ends, z/Z, '
+        '_ digit separators, blanks around commas (per rule); further spellings as evaluated examples. Decided otherwise by the reader model vs hszinc.parse on documents of an independent grammar-directed ZINC writer (value x independently chosen spelling: blanks around commas, '
         'empty cells, _ separators, exponents, INF/-INF/NaN, every escape form, CRLF, trailing commas, T/t, Z/z, with / without zone name and final newline), str and bytes in several charsets, single flag.',
-   note='PARTIAL (see text). The independent writer is harness code (harness/props/c03.py). Charset decoding is CPython\'s. Print Assumptions: closed under the global context.',
+   note='PARTIAL: the whole-document theorem covers metadata-free 3.0 documents with single commas between cells; metadata, dicts, nested grids, date-times, coordinates, Bin, XStr, empty cells, blanks around commas inside whole documents, upper-case E and multi-grid documents rest on the tie + search. The independent writer is harness code (harness/props/c03.py). Charset decoding is CPython\'s. Print Assumptions: closed under the global context.',
    technique='Coq lemmas about the reader model + correspondence and search on independently written documents',
    design='DESIGN.md §3 C03'),
  'C04': dict(
    text='Machine-checked proof (Coq) about the ZINC writer model: a dumped grid is header line, column line, one line per row and a final newline; every row line holds exactly one cell per column; no line and no cell holds a character below U+0020 '
         '(for every grid without nested grids whose verbatim tokens - names, units, number tokens - are clean); the header is ver:"X" (X the escaped version text); a written string holds only escapes the grammar accepts and is accepted '
-        'by the literal rule exactly up to its own closing quote; non-finite numbers are INF, -INF, NaN; 3.0-only kinds are refused under a pre-3.0 version. Grammar conformance of whole documents '
+        'by the literal rule exactly up to its own closing quote; non-finite numbers are INF, -INF, NaN; 3.0-only kinds are refused under a pre-3.0 version. For every metadata-free 3.0 grid over strings, URIs, numbers, dates, times, letter scalars, plain references and nested lists the emitted text '
+        'is accepted by the model of the grid rule and denotes exactly the grid written (C04_grid_conforms). Conformance to the Haystack grammar itself '
         'is judged on every dumped grid by an independent recursive-descent ZINC reader written from the Haystack grammar (harness/zincspec.py, shares no code with hszinc), which must recover the same grid.',
    note='PARTIAL: conformance to a grammar relation is not proved in Coq (the independent reader is harness code); nested grids are excluded from the layout theorem (their text spans lines by design). Print Assumptions: closed under the global context.',
    technique='Coq proofs about the writer model (layout by induction over rows / cells, control-character freedom by induction over values) + text-equality correspondence + independent reader',
